@@ -37,6 +37,7 @@ type c07SecList struct {
 // was edited in place ("edit"), the first route with its original content restored ("back")
 type c07Step struct {
 	Via     string     `json:"via"`
+	Method  string     `json:"method"` // the method of the operation this step validates (a sibling's differs from the case's)
 	PParams []c07Param `json:"pparams"`
 	OParams []c07Param `json:"oparams"`
 	OpSec   c07SecList `json:"opSec"`
@@ -68,6 +69,8 @@ type c07Case struct {
 	Hist   []c07Step `json:"hist"`
 	// Opts: "skipdefaults" / "exclreadonly": an option the statement does not mention is set; "nil": no Options at all
 	Opts string `json:"opts"`
+	// Method: the HTTP method under which the path item holds the operation (lower case, as the document spells it)
+	Method string `json:"method"`
 	// PRefs: "path" / "op" / "both": the parameters of that level are $refs to components.parameters
 	PRefs string `json:"prefs"`
 }
@@ -243,11 +246,19 @@ func c07Run(c *Case) []any {
 	if tc.PRefs == "op" || tc.PRefs == "both" {
 		ocomps = comps
 	}
-	ops := map[string]any{"post": c07Op(tc.OParams, tc.OpSec, tc.BDecl, ocomps)}
+	if tc.Method == "" { // a case recorded before the method became a dimension
+		tc.Method = "post"
+		raw["method"] = "post"
+	}
+	METHOD := strings.ToUpper(tc.Method)
+	ops := map[string]any{tc.Method: c07Op(tc.OParams, tc.OpSec, tc.BDecl, ocomps)}
 	stepMethod := map[int]string{}
 	for i, s := range tc.Hist {
 		if s.Via == "sibling" {
-			m := c07SiblingMethods[len(stepMethod)%len(c07SiblingMethods)]
+			m := s.Method
+			if m == "" {
+				m = c07SiblingMethods[len(stepMethod)%len(c07SiblingMethods)]
+			}
 			stepMethod[i] = m
 			ops[m] = c07Op(s.OParams, s.OpSec, s.BDecl, nil)
 		}
@@ -262,7 +273,7 @@ func c07Run(c *Case) []any {
 	views := map[int]*openapi3.T{}
 	for i, s := range tc.Hist {
 		if s.Via == "share" || s.Via == "edit" {
-			dv, err := c07Load(tpath, s.PParams, map[string]any{"post": c07Op(s.OParams, s.OpSec, s.BDecl, nil)}, s.DocSec, nil, map[string]any{})
+			dv, err := c07Load(tpath, s.PParams, map[string]any{tc.Method: c07Op(s.OParams, s.OpSec, s.BDecl, nil)}, s.DocSec, nil, map[string]any{})
 			if err != nil {
 				line["doc"] = "error"
 				line["docErr"] = err.Error()
@@ -270,7 +281,9 @@ func c07Run(c *Case) []any {
 			}
 			views[i] = dv
 			if s.Via == "share" { // an alias path: another path item around the SAME Operation value
-				d.Paths.Set("/u"+strconv.Itoa(i), &openapi3.PathItem{Post: d.Paths.Value(tpath).Post, Parameters: dv.Paths.Value(tpath).Parameters})
+				alias := &openapi3.PathItem{Parameters: dv.Paths.Value(tpath).Parameters}
+				alias.SetOperation(METHOD, d.Paths.Value(tpath).GetOperation(METHOD))
+				d.Paths.Set("/u"+strconv.Itoa(i), alias)
 			}
 		}
 	}
@@ -323,7 +336,7 @@ func c07Run(c *Case) []any {
 		}
 		return req
 	}
-	mkReq := func() *http.Request { return mkReqTo("POST", rpath) }
+	mkReq := func() *http.Request { return mkReqTo(METHOD, rpath) }
 	req := mkReq()
 	route, pp, err := router.FindRoute(req)
 	if err != nil {
@@ -398,7 +411,7 @@ func c07Run(c *Case) []any {
 		dsec openapi3.SecurityRequirements
 	}{route.PathItem.Parameters, route.Operation.Parameters, route.Operation.Security, route.Operation.RequestBody, d.Security}
 	for i, s := range tc.Hist {
-		method, path := "POST", rpath
+		method, path := METHOD, rpath
 		switch s.Via {
 		case "share":
 			path = "/u" + strconv.Itoa(i)
@@ -406,10 +419,11 @@ func c07Run(c *Case) []any {
 			method = strings.ToUpper(stepMethod[i])
 		case "edit": // the document is edited in place: the parts of the loaded view document are installed
 			vpi := views[i].Paths.Value(tpath)
+			vop := vpi.GetOperation(METHOD)
 			route.PathItem.Parameters = vpi.Parameters
-			route.Operation.Parameters = vpi.Post.Parameters
-			route.Operation.Security = vpi.Post.Security
-			route.Operation.RequestBody = vpi.Post.RequestBody
+			route.Operation.Parameters = vop.Parameters
+			route.Operation.Security = vop.Security
+			route.Operation.RequestBody = vop.RequestBody
 			d.Security = views[i].Security
 		case "back":
 			route.PathItem.Parameters, route.Operation.Parameters, route.Operation.Security, route.Operation.RequestBody, d.Security =
